@@ -111,6 +111,18 @@ class Selector:
             if t == "os.environ":
                 return [(st, ("environ",))]
             return [(st, ("?", t))]
+        if isinstance(n, ast.Subscript) and isinstance(n.slice, ast.Slice) and isinstance(n.value, ast.Name) and n.value.id == self.regname \
+                and all(b is None or (isinstance(b, ast.Constant) and isinstance(b.value, int) and not isinstance(b.value, bool))
+                        or (isinstance(b, ast.UnaryOp) and isinstance(b.op, ast.USub) and isinstance(b.operand, ast.Constant)
+                            and isinstance(b.operand.value, int))
+                        for b in (n.slice.lower, n.slice.upper, n.slice.step)):
+            # a slice of the registry with literal bounds: the whole table when the bounds say so, otherwise a table with rows
+            # left out or in another order (reported like a re-ordered scan: 'first match' no longer means the first registry row)
+            def lit(b):
+                return None if b is None else ast.literal_eval(b)
+            rows = list(range(len(self.rows)))
+            same = rows[slice(lit(n.slice.lower), lit(n.slice.upper), lit(n.slice.step))] == rows
+            return [(st, ("registry",) if same else ("registry", "slice %s" % norm(n)[:30]))]
         if isinstance(n, ast.Subscript):
             out = []
             for s, base in self.ev(n.value, st):
@@ -457,7 +469,7 @@ class Selector:
             for a in list(n.args):
                 outs = [s2 for s in outs for s2, _v in self.ev(a, s)]
             return [(s, None if getattr(s, "raised", None) else ("?", norm(n)[:40])) for s in outs]
-        if short in ("str", "repr", "format", "lower", "upper", "strip", "get") and f not in self.fns:
+        if short in ("str", "repr", "format", "lower", "upper", "strip", "get", "startswith", "endswith") and f not in self.fns:
             outs = [st]
             for a in list(n.args):
                 outs = [s2 for s in outs for s2, _v in self.ev(a, s)]
